@@ -90,6 +90,7 @@ def table_worker(mname, which=("C02", "C03", "C04")):
     caches = (ref or {}).get("caches", {}) if v >= (3, 12) else {}
     jrel, jabs = set(ns.get("hasjrel", [])), set(ns.get("hasjabs", []))
     cats = {c: set(ns.get(c, [])) for c in ("hasconst", "hasname", "haslocal", "hasfree", "hascompare")}
+    refcats = {c: set((ref or {}).get(c, [])) for c in ("hasconst", "hasname", "haslocal", "hasfree", "hascompare")}
     lp = localsplus_expected(MARK)
     finder = ns.get("findlabels")
     if not isinstance(finder, FuncRef):
@@ -186,6 +187,21 @@ def table_worker(mname, which=("C02", "C03", "C04")):
                 break
         if K in jrel or K in jabs:
             cat = None
+        if ref is not None and nm in ref.get("opmap", {}) and ref["opmap"][nm] == K:
+            # the category that decides which table dis indexes is CPython's own (the table's category lists are C09's subject, but an
+            # opcode filed under the wrong category resolves its operand in the wrong table, which is this property)
+            rcat = None
+            for c in ("hasconst", "hasname", "haslocal", "hasfree", "hascompare"):
+                if K in refcats[c]:
+                    rcat = c
+                    break
+            if K in set(ref.get("hasjrel", [])) or K in set(ref.get("hasjabs", [])):
+                rcat = None
+            if rcat != cat:
+                ob("C03", "R1", DEC, "%s:category" % nm, False, rcat and rcat[3:], cat and cat[3:],
+                   msg="%s is a %s operand in CPython %d.%d; the table files it under %s, so its operand is looked up in the wrong table" % (
+                       nm, rcat and rcat[3:], v[0], v[1], cat and cat[3:]))
+                cat = rcat
         if cat is not None:
             res = sem["resolution"]
             if cat == "hasconst":
